@@ -422,6 +422,17 @@ def tags_rule(rep, prog, cfg, hs, cases, common):
               "the tag branch does not push the field's value (parameter `value`) onto the tag's list")
     rep.check(ok_entry, "C14.tags", cfg + "/entry keyed by parsed key", hs.loc(hs.span),
               "the tag map entry is not keyed by the tag parsed from the field's key")
+    # the key itself: each wire name decodes to the tag of that name and no two named tags share a name (Tag compares and hashes by
+    # name), otherwise the values of two different tag lines are merged under one key.  Tables are extracted by the C20 machinery.
+    from .C20 import tag_key_problems
+    r = tag_key_problems(prog)
+    if r is None:
+        rep.fail("C14.tags", cfg + "/tag keys are one-to-one with field names", "mpd_client/src/tag.rs", "cannot extract Tag::as_str / Tag::try_from tables (failing closed)")
+    else:
+        probs, n = r
+        rep.check(not probs, "C14.tags", cfg + "/tag keys are one-to-one with field names", probs[0][0] if probs else "mpd_client/src/tag.rs",
+                  "; ".join(m for _, m in probs), detail={"named_tags": n})
+        rep.floor("C14.tags", cfg + "/named tags in the key tables", n, 31)
 
 
 def disp_rule(rep, prog, cfg, fld):
